@@ -146,7 +146,7 @@ def run_one(cs, mg, res):
                 fnd.append("editing %s.grad in place changed the seed array passed to backward()" % n1)
         return fnd
 
-    for p in engine.explore(body, max_paths=40, max_seconds=60):
+    for p in engine.explore(body, max_paths=800, max_seconds=120):
         res["paths"] += 1
         if p.exc is not None:
             if type(p.exc).__name__ == "NonReal":
